@@ -20,6 +20,7 @@ import (
 	"encoding/json"
 	"fmt"
 	"io/ioutil"
+	"math"
 	"os"
 	"path/filepath"
 	"sort"
@@ -990,7 +991,9 @@ func (f *Field) SetValue(columnID uint64, value int64) (changed bool, err error)
 	bsig := f.bsiGroup(f.name)
 	if bsig == nil {
 		return false, ErrBSIGroupNotFound
-	} else if value < bsig.Min {
+	} else if value < bsig.Min || value-bsig.Base == math.MinInt64 {
+		// Values are stored as sign and magnitude in at most 63 planes:
+		// the magnitude of MinInt64 does not fit.
 		return false, ErrBSIGroupValueTooLow
 	} else if value > bsig.Max {
 		return false, ErrBSIGroupValueTooHigh
@@ -1269,7 +1272,8 @@ func (f *Field) importValue(columnIDs []uint64, values []int64, options *ImportO
 		columnID, value := columnIDs[i], values[i]
 		if value > bsig.Max {
 			return fmt.Errorf("%v, columnID=%v, value=%v", ErrBSIGroupValueTooHigh, columnID, value)
-		} else if value < bsig.Min {
+		} else if value < bsig.Min || value-bsig.Base == math.MinInt64 {
+			// the magnitude of MinInt64 does not fit the 63 value planes
 			return fmt.Errorf("%v, columnID=%v, value=%v", ErrBSIGroupValueTooLow, columnID, value)
 		}
 
